@@ -4,13 +4,16 @@ import (
 	"bytes"
 	"context"
 	"encoding/binary"
+	"encoding/hex"
 	"fmt"
 	"io"
 	"math/rand"
+	"net/url"
 	"os"
 	"os/exec"
 	"path/filepath"
 	"sort"
+	"strconv"
 	"strings"
 	"sync"
 
@@ -58,9 +61,31 @@ func implPruneRun(line string) string {
 			keep[id] = struct{}{}
 		}
 	}
-	st, err := desync.NewLocalStore(root, desync.StoreOptions{Uncompressed: a["unc"] == "1"})
-	if err != nil {
-		return "harness-error"
+	var st desync.PruneStore
+	var err error
+	if a["backend"] == "sftp" {
+		// the same directory served over SFTP by the helper child (pkg/sftp's server on stdin/stdout)
+		w, werr := sftpWrapper(c16dir)
+		if werr != nil {
+			return "harness-error"
+		}
+		os.Setenv("CASYNC_SSH_PATH", w)
+		u, _ := url.Parse("sftp://localhost" + root)
+		nconn, _ := strconv.Atoi(a["n"])
+		if nconn < 1 {
+			nconn = 1
+		}
+		ss, serr := desync.NewSFTPStore(u, desync.StoreOptions{N: nconn, Uncompressed: a["unc"] == "1"})
+		if serr != nil {
+			return "harness-error " + serr.Error()
+		}
+		defer ss.Close()
+		st = ss
+	} else {
+		st, err = desync.NewLocalStore(root, desync.StoreOptions{Uncompressed: a["unc"] == "1"})
+		if err != nil {
+			return "harness-error"
+		}
 	}
 	return guard(func() string {
 		err := st.Prune(context.Background(), keep)
@@ -71,6 +96,27 @@ func implPruneRun(line string) string {
 		}
 		return "ok " + strings.Join(rem, ";")
 	})
+}
+
+// sftpTempName: 64 hex digits, the store's extension, one or more decimal digits
+func sftpTempName(name, ext string) bool {
+	if len(name) <= 64+len(ext) || name[64:64+len(ext)] != ext {
+		return false
+	}
+	for _, c := range name[64+len(ext):] {
+		if c < '0' || c > '9' {
+			return false
+		}
+	}
+	_, err := hex.DecodeString(name[:64])
+	return err == nil
+}
+
+func ownExtOf(unc bool) string {
+	if unc {
+		return ""
+	}
+	return ".cacnk"
 }
 
 func implStoreName(line string) string {
@@ -140,7 +186,11 @@ func runC16(cfg Config) {
 			case 3:
 				e.dir, e.name, e.kind = sid[:4], sid+otherExt, "other"
 			case 4:
-				e.dir, e.name, e.kind = sid[:4], ".tmp-cacnk"+fmt.Sprint(rng.Intn(100000)), "tmp"
+				if rng.Intn(2) == 0 {
+					e.dir, e.name, e.kind = sid[:4], ".tmp-cacnk"+fmt.Sprint(rng.Intn(100000)), "tmp"
+				} else { // what an interrupted SFTP upload leaves: the chunk file name followed by a number
+					e.dir, e.name, e.kind = sid[:4], sid+[]string{ownExt, otherExt}[rng.Intn(2)]+fmt.Sprint(1+rng.Intn(1<<30)), "stmp"
+				}
 			case 5:
 				e.dir, e.name, e.kind = []string{sid[:4], "junk", "."}[rng.Intn(3)], []string{"README", "x.cacnk", sid[:60] + ownExt, sid + "00" + ownExt, "lost+found.txt"}[rng.Intn(5)], "junk"
 			case 6:
@@ -175,9 +225,28 @@ func runC16(cfg Config) {
 			keep = append(keep, hx(randBytes(rng, 32)))
 		}
 		line := fmt.Sprintf("prune.run unc=%d keep=%s files=%s", b2i(unc), strings.Join(keep, ","), strings.Join(files, ";"))
-		got := implPruneRun(line)
-		rep.Compare(m, line, implPruneRun, nil)
-		rep.Count(line, len(files) >= 3, "prune", "result:"+strings.SplitN(got, " ", 2)[0])
+		backend := "local"
+		if it%3 == 0 { // the same directory pruned through the SFTP store (1 or 2 pooled connections)
+			backend = "sftp"
+			line += fmt.Sprintf(" backend=sftp n=%d", 1+rng.Intn(2))
+		}
+		got := timed(implPruneRun, line)
+		if backend == "local" {
+			rep.Compare(m, line, implPruneRun, nil)
+		} else if m.cmd != nil {
+			// the SFTP walk visits a directory in the server's (unsorted) order: when a removal fails, what
+			// was already removed depends on that order, so only the verdict is compared then
+			want := m.Ask(line)
+			if want != got && !(strings.HasPrefix(want, "failed") && strings.HasPrefix(got, "failed")) {
+				rep.Disagree(Disagreement{Kind: "correspondence", Case: clip(line, 100000), Model: clip(want, 1000), Impl: clip(got, 1000),
+					What: "model and implementation differ (SFTP prune)"})
+			}
+		}
+		rep.Count(line, len(files) >= 3, "prune:"+backend, "result:"+strings.SplitN(got, " ", 2)[0])
+		if strings.HasPrefix(got, "hang") {
+			monitor("Prune did not return ("+backend+")", line, got)
+			continue
+		}
 		// monitors
 		remaining := map[string]bool{}
 		f := strings.SplitN(got, " ", 2)
@@ -188,6 +257,18 @@ func runC16(cfg Config) {
 		}
 		for _, e := range ents {
 			key := hx([]byte(e.dir)) + "/" + hx([]byte(e.name))
+			if backend == "sftp" && e.kind != "own" && e.kind != "other" {
+				// by name alone: the temporary file of an interrupted upload to this store (the chunk file name
+				// followed by a number), or something that is none of this store's business
+				if sftpTempName(e.name, ownExtOf(unc)) {
+					if remaining[key] && f[0] == "ok" {
+						monitor("SFTP prune reported success but left the temporary file of an interrupted upload", line, got)
+					}
+				} else if !remaining[key] {
+					monitor("SFTP prune deleted a file that is neither a chunk nor a temporary file of this store ("+e.kind+")", line, got)
+				}
+				continue
+			}
 			switch e.kind {
 			case "own":
 				if e.keep && !remaining[key] {
@@ -205,8 +286,19 @@ func runC16(cfg Config) {
 					monitor("prune deleted a file that is not a chunk of this store ("+e.kind+")", line, got)
 				}
 			case "tmp":
-				if remaining[key] && f[0] == "ok" {
+				if backend == "local" && remaining[key] && f[0] == "ok" {
 					monitor("prune reported success but left a temporary chunk file", line, got)
+				}
+				if backend == "sftp" && !remaining[key] {
+					monitor("SFTP prune deleted a file that is not a chunk or temporary file of an SFTP store", line, got)
+				}
+			case "stmp":
+				own := strings.HasPrefix(e.name, hx(e.id[:])+ownExtOf(unc)) && (ownExtOf(unc) != "" || !strings.Contains(e.name, "."))
+				if backend == "sftp" && own && remaining[key] && f[0] == "ok" {
+					monitor("SFTP prune reported success but left the temporary file of an interrupted upload", line, got)
+				}
+				if (backend == "local" || !own) && !remaining[key] {
+					monitor("prune deleted a file that is not a chunk or temporary file of this store", line, got)
 				}
 			}
 		}
